@@ -238,6 +238,9 @@ func (s *schemaPropsValidator) validateOneOf(data interface{}, mainResult, keepR
 		mainResult.Merge(bestFailures)
 		// firstSucess necessarily nil
 	case 1:
+		// exactly one alternative holds: the failures of the others explain nothing, whether they were met
+		// before or after the successful one (tagged messages met before it have been cleared already)
+		_ = keepResultOneOf.cleared()
 		mainResult.Merge(firstSuccess)
 		if bestFailures != nil && bestFailures.wantsRedeemOnMerge {
 			pools.poolOfResults.RedeemResult(bestFailures)
